@@ -461,8 +461,9 @@ def CodeRef.code (fs : FS) (r : CodeRef) : Option Str :=
 
 `compat.load_module` goes through the import system, which trusts cached bytecode whose recorded stamp (mtime in
 whole seconds, size) equals the stamp of the source file.  `_compile_module_file` writes the new module through the
-default writer or through `module_writer=` and then - on the path common to BOTH branches (regenerated flag
-`Generated.ModFile.dropsBytecode`, read from the function's AST by tools/regen_modfile.py) - removes that bytecode. -/
+default writer or through `module_writer=` and then - on the path common to BOTH branches (regenerated flags
+`Generated.ModFile.dropsBytecode` for the default writer and `Generated.ModFile.dropsBytecodeHook` for a custom
+`module_writer`, read from the function's AST by tools/regen_modfile.py) - removes that bytecode. -/
 
 /-- a module file on disk and its `__pycache__` entry -/
 structure ModFile where
@@ -480,10 +481,19 @@ def ModFile.executes (m : ModFile) : Str :=
 /-- importing caches the bytecode of what was executed -/
 def ModFile.imported (m : ModFile) : ModFile := { m with pyc := some (m.stamp, m.executes) }
 
-/-- `_compile_module_file(…, outputpath, module_writer)`: either writer puts `src` in place (the file gets `stamp`);
+/-- `_compile_module_file(…, outputpath, module_writer)`: the writer puts `src` in place (the file gets `stamp`);
 then the cached bytecode is removed iff `dropPyc` -/
 def ModFile.regenerate (dropPyc : Bool) (m : ModFile) (src : Str) (stamp : Nat × Nat) : ModFile :=
   { src := src, stamp := stamp, pyc := if dropPyc then none else m.pyc }
+
+/-- is the bytecode removed after the write – one regenerated flag per writer branch: `dropsBytecodeHook` when a
+`module_writer` was given (`hook = true`), `dropsBytecode` for the default writer -/
+def dropsAfter (hook : Bool) : Bool :=
+  if hook then Generated.ModFile.dropsBytecodeHook else Generated.ModFile.dropsBytecode
+
+/-- `_compile_module_file` as the code is now, with (`hook`) or without a custom `module_writer` -/
+def ModFile.recompiled (hook : Bool) (m : ModFile) (src : Str) (stamp : Nat × Nat) : ModFile :=
+  m.regenerate (dropsAfter hook) src stamp
 
 /-! ## (d) `_kwargs_for_callable`, `has_def`, `list_defs` -/
 
